@@ -782,44 +782,101 @@ Lemma pool_nonvacuous :
 Proof. vm_compute. repeat split; congruence. Qed.
 
 (* ---------------- hostile datagrams and the table of outstanding RADIUS requests ---------------- *)
-Lemma rad_run_cons c p d r :
-  rad_run c p (d :: r) =
-  (fst (rad_run c (fst (rad_step c p d)) r),
-   match snd (rad_step c p d) with Some id => id :: snd (rad_run c (fst (rad_step c p d)) r)
-                                 | None => snd (rad_run c (fst (rad_step c p d)) r) end).
+Section RadTableProofs.
+  Variables D1 D2 : bytes -> bytes -> bytes.
+  Lemma rad_run_cons c p d r :
+    rad_run D1 D2 c p (d :: r) =
+    (fst (rad_run D1 D2 c (fst (rad_step D1 D2 c p d)) r),
+     match snd (rad_step D1 D2 c p d) with Some x => x :: snd (rad_run D1 D2 c (fst (rad_step D1 D2 c p d)) r)
+                                         | None => snd (rad_run D1 D2 c (fst (rad_step D1 D2 c p d)) r) end).
+  Proof.
+    cbn [rad_run]. destruct (rad_step D1 D2 c p d) as [p1 o]. cbn [fst snd].
+    destruct (rad_run D1 D2 c p1 r) as [p2 os]. reflexivity.
+  Qed.
+  Lemma rad_step_rejected p raw : accepts D1 D2 p raw = false -> rad_step D1 D2 false p raw = (p, None).
+  Proof.
+    unfold accepts, rad_step. destruct (rad_parse_ok raw); cbn [andb negb]; [|reflexivity].
+    destruct (pfind (nth 1 raw 0) p) as [ra|]; [|reflexivity]. intros ->. reflexivity.
+  Qed.
+  Lemma rad_step_accepted p raw : accepts D1 D2 p raw = true ->
+    rad_step D1 D2 false p raw = (pdel (nth 1 raw 0) p, Some raw).
+  Proof.
+    unfold accepts, rad_step. destruct (rad_parse_ok raw); cbn [andb negb]; [|discriminate].
+    destruct (pfind (nth 1 raw 0) p) as [ra|]; [|discriminate]. intros ->. reflexivity.
+  Qed.
+  (* every datagram that is not an authentic reply to an outstanding request — judged by the real verification over its
+     bytes — leaves the table untouched and wakes nobody *)
+  Lemma rad_junk_ignored : forall ds p, (forall raw, In raw ds -> accepts D1 D2 p raw = false) ->
+    rad_run D1 D2 false p ds = (p, []).
+  Proof.
+    induction ds as [|d r IH]; intros p H; [reflexivity|].
+    rewrite rad_run_cons, rad_step_rejected by (apply H; left; reflexivity). cbn [fst snd].
+    rewrite IH; [reflexivity|]. intros raw Hin. apply H. right. exact Hin.
+  Qed.
+  (* ... so an authentic reply that follows any amount of them is delivered, and only then is its slot cleared *)
+  Lemma rad_genuine_after_junk junk g rest p :
+    (forall raw, In raw junk -> accepts D1 D2 p raw = false) -> accepts D1 D2 p g = true ->
+    exists os, snd (rad_run D1 D2 false p (junk ++ g :: rest)) = g :: os /\
+               fst (rad_run D1 D2 false p (junk ++ [g])) = pdel (nth 1 g 0) p.
+  Proof.
+    intros Hj Hg. induction junk as [|d r IH].
+    - cbn [app]. rewrite !rad_run_cons, rad_step_accepted by exact Hg. cbn [fst snd]. eexists. split; reflexivity.
+    - cbn [app]. rewrite !rad_run_cons, rad_step_rejected by (apply Hj; left; reflexivity). cbn [fst snd].
+      apply IH. intros raw Hin. apply Hj. right. exact Hin.
+  Qed.
+End RadTableProofs.
+
+(* what "authentic" means on the bytes: the datagram is at least its declared length (>= 20), bytes 4..20 of the declared
+   part equal the Response-Authenticator digest, and a Message-Authenticator attribute, if present, equals the HMAC digest *)
+Lemma authentic_sound raw d1 d2 : authentic raw d1 d2 = true ->
+  exists raw', sl 0 (rad_declared raw) raw = Ok raw' /\ 20 <= rad_declared raw /\ sl 4 20 raw' = Ok d1 /\
+    (forall off, find_attr80 raw' = Ok (Some off) -> sl off (off + 16) raw' = Ok d2).
 Proof.
-  cbn [rad_run]. destruct (rad_step c p d) as [p1 o]. cbn [fst snd].
-  destruct (rad_run c p1 r) as [p2 os]. reflexivity.
+  unfold authentic, is_authentic_reply. intros H.
+  destruct (lenN raw <? 20) eqn:E0; [discriminate H|].
+  assert (H2 : idx 2 raw = Ok (nth 2 raw 0) /\ idx 3 raw = Ok (nth 3 raw 0)).
+  { unfold idx, index. split.
+    - destruct (nth_error raw (N.to_nat 2)) eqn:E; [erewrite nth_error_nth by exact E; reflexivity|].
+      apply nth_error_None in E. unfold lenN in E0. lia.
+    - destruct (nth_error raw (N.to_nat 3)) eqn:E; [erewrite nth_error_nth by exact E; reflexivity|].
+      apply nth_error_None in E. unfold lenN in E0. lia. }
+  destruct H2 as [I2 I3]. rewrite I2, I3 in H. cbn [rbind] in H. cbv zeta in H. fold (rad_declared raw) in H.
+  destruct ((rad_declared raw <? 20) || (lenN raw <? rad_declared raw)) eqn:E1; [discriminate H|].
+  destruct (sl 0 (rad_declared raw) raw) as [raw'| | |] eqn:Es; cbn [rbind] in H; try discriminate H.
+  destruct (sl 0 4 raw') as [h1| | |]; cbn [rbind] in H; try discriminate H.
+  destruct (slf 20 raw') as [h2| | |]; cbn [rbind] in H; try discriminate H.
+  destruct (sl 4 20 raw') as [auth| | |] eqn:Ea; cbn [rbind] in H; try discriminate H.
+  destruct (list_eq_dec N.eq_dec d1 auth) as [->|]; cbn [negb] in H; [|discriminate H].
+  exists raw'. split; [reflexivity|]. split; [lia|]. split; [exact Ea|].
+  intros off Hoff. rewrite Hoff in H. cbn [rbind] in H.
+  destruct (sl off (off + 16) raw') as [w| | |]; cbn [rbind] in H; try discriminate H.
+  destruct (list_eq_dec N.eq_dec d2 w) as [->|]; [reflexivity|discriminate H].
 Qed.
-(* datagrams that are not an authentic reply are ignored: the table is untouched and nobody is woken *)
-Lemma rad_junk_ignored : forall ds p, forallb (fun d => negb (is_genuine d)) ds = true -> rad_run false p ds = (p, []).
-Proof.
-  induction ds as [|d r IH]; intros p H; [reflexivity|].
-  cbn [forallb] in H. apply andb_prop in H. destruct H as [Hd Hr].
-  rewrite rad_run_cons. destruct d; cbn [is_genuine negb] in Hd; try discriminate Hd;
-    cbn [rad_step andb fst snd]; rewrite (IH p Hr); reflexivity.
-Qed.
-(* ... so the genuine reply that follows any amount of them is still delivered to its requester *)
-Lemma rad_genuine_after_junk junk id rest p :
-  forallb (fun d => negb (is_genuine d)) junk = true -> pend_has id p = true ->
-  exists os, snd (rad_run false p (junk ++ DGenuine id :: rest)) = id :: os /\
-             fst (rad_run false p (junk ++ [DGenuine id])) = pend_del id p.
-Proof.
-  intros Hj Hp. revert p Hp. induction junk as [|d r IH]; intros p Hp.
-  - cbn [app]. rewrite !rad_run_cons. cbn [rad_step]. rewrite Hp. cbn [fst snd].
-    eexists. split; reflexivity.
-  - cbn [forallb] in Hj. apply andb_prop in Hj. destruct Hj as [Hd Hr].
-    cbn [app]. rewrite !rad_run_cons.
-    assert (Hs : rad_step false p d = (p, None)).
-    { destruct d; cbn [is_genuine negb] in Hd; try discriminate Hd; reflexivity. }
-    rewrite Hs. cbn [fst snd]. apply IH; assumption.
-Qed.
-(* clearing the slot at lookup time, before the reply is verified, violates this: one forged datagram with the right
-   identifier and the genuine reply is thrown away (seeded change C07_q3) *)
+
+(* clearing the slot at lookup time, before the reply is verified, violates this (seeded change C07_q3): with digests
+   7..7 expected, a forged 20-byte datagram (zero authenticator, identifier 1) followed by the authentic one *)
+Definition ex_forged : bytes := [3; 1; 0; 20] ++ repeat 0 16.
+Definition ex_genuine : bytes := [2; 1; 0; 20] ++ repeat 7 16.
 Lemma rad_claim_first_refuted :
-  rad_run true [1] [DJunk 1; DGenuine 1] = ([], []) /\ rad_run false [1] [DJunk 1; DGenuine 1] = ([], [1]).
-Proof. split; vm_compute; reflexivity. Qed.
-Lemma rad_nonvacuous :
-  forallb (fun d => negb (is_genuine d)) (dgrams_of [0; 1; 2; 3; 4; 5; 6]) = true /\ pend_has 1 [1] = true /\
-  snd (rad_run false [1] (dgrams_of [0; 6; 2; 9; 0])) = [1].
+  let D := fun (_ _ : bytes) => repeat 7 16 in
+  rad_run D D true [(1, [])] [ex_forged; ex_genuine] = ([], []) /\
+  rad_run D D false [(1, [])] [ex_forged; ex_genuine] = ([], [ex_genuine]) /\
+  accepts D D [(1, [])] ex_forged = false /\ accepts D D [(1, [])] ex_genuine = true.
 Proof. repeat split; vm_compute; reflexivity. Qed.
+
+(* the third-party acceptance check implies the hypothesis under which the CoA read loop trims the datagram *)
+Lemma rad_parse_ok_declared raw : rad_parse_ok raw = true ->
+  20 <= lenN raw /\ 20 <= rad_declared raw /\ rad_declared raw <= lenN raw.
+Proof.
+  unfold rad_parse_ok, rad_parse. destruct (lenN raw <? 20) eqn:E0; [discriminate|]. cbv zeta.
+  destruct ((rad_declared raw <? 20) || (4096 <? rad_declared raw) || (lenN raw <? rad_declared raw)) eqn:E1; [discriminate|].
+  intros _. lia.
+Qed.
+Lemma coa_trim_total_after_parse raw : rad_parse_ok raw = true -> safe (coa_trim raw).
+Proof.
+  intros H. apply rad_parse_ok_declared in H. destruct H as (H1 & H2 & H3).
+  apply coa_trim_total; [lia|]. intros l Hl.
+  assert (l = rad_declared raw); [|lia].
+  destruct raw as [|a [|b [|c [|d r]]]]; try (unfold lenN in H1; cbn in H1; lia).
+  unfold rad_declared. cbn [nth]. cbv in Hl. apply Ok_inj in Hl. subst l. reflexivity.
+Qed.
